@@ -144,9 +144,12 @@ def run_case(case):
         desc_cfg = {'patterns': pats, 'regex': regex}
     elif fam == 'rename_fields':
         mapping = []
-        kind = rng.choice(['lit', 'noregex', 'backref', 'alt', 'two', 'swap', 'noregex_backslash'])
-        covc['rename/' + kind] = 1
+        kind = rng.choice(['lit', 'noregex', 'backref', 'alt', 'two', 'swap', 'noregex_backslash', 'alt_prefix_first',
+                           'lazy_then_optional'])
         n0 = rng.choice(names)
+        if kind in ('alt_prefix_first', 'lazy_then_optional') and len(n0) < 2:
+            kind = 'lit'
+        covc['rename/' + kind] = 1
         if kind == 'lit':
             mapping = [(lit(n0), 'NEW')]
         elif kind == 'noregex':
@@ -156,6 +159,12 @@ def run_case(case):
             mapping, regex = [(n0, rng.choice(['price\\net', 'q\\\\z', 'a\\1', 'c:\\data\\w', 'x\\g<0>']))], False
         elif kind == 'backref':
             mapping = [('(' + lit(n0[0]) + ')(.*)', r'\2_\1')]
+        elif kind == 'alt_prefix_first':
+            # the new name is the template expanded for the match of the WHOLE name, also when an earlier alternative
+            # matches a prefix of it
+            mapping = [(lit(n0[:rng.randint(1, len(n0) - 1)]) + '|' + lit(n0), rng.choice(['NEW', r'N_\g<0>']))]
+        elif kind == 'lazy_then_optional':
+            mapping = [('(' + lit(n0[0]) + '.*?)(' + lit(n0[-1]) + ')?', r'\1')]
         elif kind == 'alt':
             mapping = [(lit(n0) + '|' + lit(rng.choice(names)) + 'Q', 'NEW')]
         elif kind == 'two':
@@ -241,7 +250,8 @@ def run_case(case):
     elif fam == 'find_replace':
         targets = rng.sample(names, rng.randint(1, min(2, len(names))))
         pool = [('a', 'X'), ('[0-9]+', '#'), ('^', '>'), ('(.)\\1', r'\1'), ('l+', 'L'), ('e', ''),
-                ('.', '.'), ('N', 'n')]
+                ('.', '.'), ('N', 'n'),
+                ('a', r'[\g<0>]'), ('e', r'\\'), ('l', r'\t'), ('N', r'\g<0>\g<0>')]
         specs = [{'name': t, 'patterns': [dict(zip(('find', 'replace'), rng.choice(pool)))
                                           for _ in range(rng.randint(1, 3))]} for t in targets]
         if rng.random() < 0.3:
